@@ -88,7 +88,12 @@ def run (kv : KV) : String :=
   let valueClean := b.resp.headers.all (fun h => !h.value.contains 13 && !h.value.contains 10
                       && !h.name.contains 13 && !h.name.contains 10 && !h.name.contains 58 && !h.name.isEmpty)
   let c04app := declOk && ctx.upgrade.isNone && valueClean
-  let c04 := Spec.c04Holds ctx.noBody gStatus body out
+  -- "one well-formed message": the client recovers status and body, AND the header block delimits the
+  -- message in exactly one way (never Content-Length next to Transfer-Encoding, RFC 7230 3.3.2/3.3.3)
+  let wellFramed := match outHeaders out with
+    | some (_, hs) => Spec.framedOf hs != .other
+    | none => false
+  let c04 := Spec.c04Holds ctx.noBody gStatus body out && wellFramed
   let c05 := match teL, oh with
     | some te, some (_, hs) =>
       some (Spec.c05Holds ctx.version gStatus te gLen b.resp.chunkedThreshold body.length ctx.upgrade.isSome hs)
